@@ -42,25 +42,42 @@ def run(ctx):
         regen.check(ctx, 'R7')
 
 
-def _letter_table(ctx):
+def _position_terms(ctx):
+    """compute_position's return value with the letter lookups named: -> (cp, argument node, term function, tables seen)"""
     cp = ctx.prog.func(f'{GK}.PitchPositionReferenceSystem.compute_position')
-    for n in walk_local(cp.node):
-        if isinstance(n, ast.Assign) and F.is_name(n.targets[0], 'LETTER_TO_INDEX'):
-            ok, v = ctx.ce.try_eval(n.value, cp.module)
-            if ok:
-                return cp, n, dict(v)
-    b = ctx.prog.resolve(cp.module, 'LETTER_TO_INDEX')
-    if b is not None and b.kind == 'assign':
-        ok, v = ctx.ce.try_eval(b.value, b.module)
-        if ok:
-            return cp, b.node, dict(v)
-    raise AnalysisError(f'{cp.loc}: LETTER_TO_INDEX not found')
+    nested = ctx.prog.nested_functions(cp)
+    tables = []
+
+    def letter_expr(node):
+        """The subscript of a letter lookup with a call of a local / private one-expression helper replaced by its body."""
+        if isinstance(node, ast.Call) and len(node.args) == 1 and not node.keywords:
+            cb = F.callable_body(ctx, node.func, cp)
+            if cb is not None and len(cb[0]) == 1:
+                return G.substitute(cb[1], {cb[0][0]: node.args[0]}, recursive=False)
+        return node
+
+    def term(node):
+        if isinstance(node, ast.Subscript):
+            ok, v = ctx.ce.try_eval(node.value, cp.module, cp.cls, {})
+            if ok and isinstance(v, dict) and v and all(isinstance(k, str) for k in v):
+                tables.append((node, dict(v)))
+                return f'IDX[{src(letter_expr(node.slice))}]'
+        return None
+    return cp, term, tables
 
 
 def r1_tables(ctx):
-    cp, node, lti = _letter_table(ctx)
-    ctx.check(lti == {'C': 0, 'D': 1, 'E': 2, 'F': 3, 'G': 4, 'A': 5, 'B': 6}, 'R1', f'{cp.module.relpath}:{node.lineno}', cp.qualname,
-              'letter-index-table', 'LETTER_TO_INDEX is the C-based diatonic order 0..6', f'LETTER_TO_INDEX = {lti}')
+    cp, term, tables = _position_terms(ctx)
+    for cond, val, sp in symex.returns(cp):
+        if isinstance(val, ast.Call) and val.args:
+            for n in ast.walk(val.args[0]):
+                term(n)
+    if not tables:
+        raise AnalysisError(f'{cp.loc}: no letter -> index table is consulted by compute_position')
+    for node, lti in tables[:1]:
+        ctx.check(all(t == {'C': 0, 'D': 1, 'E': 2, 'F': 3, 'G': 4, 'A': 5, 'B': 6} for _, t in tables), 'R1',
+                  f'{cp.module.relpath}:{node.lineno}', cp.qualname,
+                  'letter-index-table', 'the letter -> index table is the C-based diatonic order 0..6', f'letter table = {lti}')
     letters = ctx.ce.module_const(GK, 'LETTERS')
     ln, lm = ctx.prog.const_node(GK, 'LETTERS')
     ctx.check(list(letters) == ['c', 'd', 'e', 'f', 'g', 'a', 'b'], 'R1', f'{lm.relpath}:{ln.lineno}', f'{GK}.LETTERS', 'letters-table',
@@ -69,10 +86,9 @@ def r1_tables(ctx):
 
 
 def r2_position(ctx, seven):
-    cp = ctx.prog.func(f'{GK}.PitchPositionReferenceSystem.compute_position')
+    cp, term, tables = _position_terms(ctx)
     p = cp.params[1]
     rets = symex.returns(cp)
-    nested = ctx.prog.nested_functions(cp)
     if len(rets) != 1:
         ctx.violation('R2', cp.loc, cp.qualname, 'position-paths', f'{len(rets)} return paths')
         return
@@ -81,39 +97,31 @@ def r2_position(ctx, seven):
     if not ok_cls:
         ctx.violation('R2', cp.loc, cp.qualname, 'position-shape', f'compute_position returns `{src(val)[:80]}`')
         return
-    def term(node):
-        if isinstance(node, ast.Subscript) and isinstance(node.value, ast.Dict):
-            return f'LETTER_TO_INDEX[{src(node.slice)}]'
-        return None
     try:
         a = affine(val.args[0], None, term)
     except NotAffine as e:
         ctx.violation('R2', cp.loc, cp.qualname, 'position-not-affine', f'the staff position is not affine in the pitch: {e}')
         return
-    helper = None
-    for t in a.terms:
-        if t.startswith('LETTER_TO_INDEX['):
-            inner = ast.parse(t, mode='eval').body.slice
-            if isinstance(inner, ast.Call) and isinstance(inner.func, ast.Name):
-                helper = inner.func.id
-    want = {f'{p}.octave': seven, 'self.base_pitch.octave': -seven,
-            f'LETTER_TO_INDEX[{helper}({p})]': 1, f'LETTER_TO_INDEX[{helper}(self.base_pitch)]': -1}
-    ctx.check(a.terms == want and a.const == 0, 'R2', cp.loc, cp.qualname, 'position-affine',
+
+    def strip_forms(q):
+        return {f"AgnosticPitch({q}.name.replace('+', '').replace('-', ''), {q}.octave).name",
+                f"AgnosticPitch({q}.name.replace('-', '').replace('+', ''), {q}.octave).name",
+                f"{q}.name.replace('+', '').replace('-', '')", f"{q}.name.replace('-', '').replace('+', '')",
+                f"{q}.name[0]", f"{q}.name[:1]"}
+    idx_terms = {t: c for t, c in a.terms.items() if t.startswith('IDX[')}
+    other = {t: c for t, c in a.terms.items() if not t.startswith('IDX[')}
+    ok_aff = other == {f'{p}.octave': seven, 'self.base_pitch.octave': -seven} and a.const == 0 and len(idx_terms) == 2 \
+        and sorted(idx_terms.values()) == [-1, 1]
+    ctx.check(ok_aff, 'R2', cp.loc, cp.qualname, 'position-affine',
               f'position = {seven}*(oct(p) - oct(base)) + idx(p) - idx(base): coefficient 1 on the diatonic step, {seven} per octave',
-              f'position is `{a.key()}`, expected {want}')
-    hf = nested.get(helper) if helper else None
-    okh = False
-    if hf is not None:
-        hr = symex.returns(hf)
-        q = hf.params[0]
-        if len(hr) == 1:
-            s = src(hr[0][1])
-            okh = s in (f"AgnosticPitch({q}.name.replace('+', '').replace('-', ''), {q}.octave).name",
-                        f"AgnosticPitch({q}.name.replace('-', '').replace('+', ''), {q}.octave).name",
-                        f"{q}.name.replace('+', '').replace('-', '')", f"{q}.name.replace('-', '').replace('+', '')",
-                        f"{q}.name[0]", f"{q}.name[:1]")
-    ctx.check(okh, 'R2', hf.loc if hf else cp.loc, cp.qualname, 'accidentals-stripped-before-lookup',
-              'the letter lookup strips + and -: the accidental does not move the position')
+              f'position is `{a.key()}`')
+    okh = len(idx_terms) == 2
+    for t, c in idx_terms.items():
+        inner = t[len('IDX['):-1]
+        okh = okh and inner in strip_forms(p if c == 1 else 'self.base_pitch')
+    ctx.check(okh, 'R2', cp.loc, cp.qualname, 'accidentals-stripped-before-lookup',
+              'the letter lookup strips + and -: the accidental does not move the position',
+              f'letters are looked up as {sorted(idx_terms)}')
     rp = ctx.prog.func(f'{GK}.Clef.reference_point')
     rr = symex.returns(rp)
     ctx.check(len(rr) == 1 and F.same(ctx, rp, rr[0][1], 'PitchPositionReferenceSystem(self.bottom_line())'), 'R2', rp.loc, rp.qualname,
@@ -161,80 +169,36 @@ def r3_codec(ctx, seven):
         wcases[il] = (ch[1] if ch[0] else None, sp_[1] if sp_[0] else None, which)
     ctx.check(wcases.get(True) == (LINE_C, sep, 'line') and wcases.get(False) == (SPACE_C, sep, 'space'), 'R3', str_f.loc, str_f.qualname,
               'writer-table', f'writer: line -> {LINE_C}{sep}line(), space -> {SPACE_C}{sep}space()', f'writer cases: {wcases}')
-    # reader: distance expression
+    # reader: the checker's evaluator interprets gkern_to_g_clef_pitch on what the writer emits for every position of RANGE
     rd = ctx.prog.func(f'{GK}.gkern_to_g_clef_pitch')
-    body = docstring_free(rd.body)
-    start = None
-    for i, st in enumerate(body):
-        if isinstance(st, ast.Assign) and F.is_name(st.targets[0], 'distance'):
-            start = i
-    if start is None:
-        raise AnalysisError(f'{rd.loc}: assignment of `distance` not found')
-    dist_expr = body[start].value
-    # reader tests the same characters
-    tested = set()
-    for n in walk_local(rd.node):
-        if isinstance(n, ast.Compare) and F.is_name(n.left, 'position_type'):
-            for c in n.comparators:
-                try:
-                    v = ast.literal_eval(c)
-                    tested |= set(v) if isinstance(v, (tuple, list, set)) else {v}
-                except Exception:
-                    pass
-    ctx.check(tested == {LINE_C, SPACE_C}, 'R3', rd.loc, rd.qualname, 'reader-characters',
-              f'the reader tests the characters the writer emits ({LINE_C}, {SPACE_C})', f'reader tests {sorted(tested)}')
-    split_ok = any(isinstance(n, ast.Call) and isinstance(n.func, ast.Attribute) and n.func.attr == 'split' and n.args
-                   and ctx.ce.try_eval(n.args[0], rd.module) == (True, sep) for n in walk_local(rd.node))
-    ctx.check(split_ok, 'R3', rd.loc, rd.qualname, 'reader-separator', 'the reader splits on the separator the writer uses')
+    letters = list(ctx.ce.module_const(GK, 'LETTERS'))
     bad = []
     for ls in RANGE:
         il = _eval_int(ctx, exprs['is_line'], {'self.line_space': ls}, pis.module)
         which = 'line' if il else 'space'
         n = _eval_int(ctx, exprs[which], {'self.line_space': ls}, pis.module)
         ch = LINE_C if il else SPACE_C
-        d = _eval_int(ctx, dist_expr, {'n': n, 'position_type': ch}, rd.module)
-        if (ls % 2 == 0) != bool(il) or d != ls + 2:
-            bad.append((ls, ch, n, d))
-    ctx.check(not bad, 'R3', f'{rd.module.relpath}:{body[start].lineno}', rd.qualname, 'codec-inverse',
-              f'reader(writer(line_space)) = line_space + 2 for both parities and signs ({len(RANGE)} positions enumerated): '
-              f'lines and spaces alternate without gap or overlap',
-              f'reader and writer of the T@n/S@n codec disagree, e.g. (line_space, type, n, distance) = {bad[:3]}')
-    # letters and repetition from the distance; sibling: HumdrumPitchExporter
-    tail = body[start + 1:]
-    sps = symex.sym_paths(tail)
-    letters = list(ctx.ce.module_const(GK, 'LETTERS'))
-    bad = []
-    mods = set()
-    for n in walk_local(rd.node):
-        if isinstance(n, ast.BinOp) and isinstance(n.op, (ast.Mod, ast.FloorDiv)) and F.is_name(n.left, 'distance'):
-            ok, v = ctx.ce.try_eval(n.right, rd.module)
-            mods.add(v if ok else src(n.right))
-    ctx.check(mods == {seven}, 'R1', rd.loc, rd.qualname, 'seven-everywhere',
-              f'distance % {seven} and distance // {seven}: the modulus equals len(LETTERS) and the octave factor of compute_position',
-              f'distance is reduced with {sorted(mods, key=str)}; len(LETTERS) = {seven}')
-    for d in RANGE:
-        taken = []
-        for sp in sps:
-            ok_all = True
-            for node, truth in sp.conds:
-                if bool(_eval_int(ctx, node, {'distance': d}, rd.module)) != truth:
-                    ok_all = False
-                    break
-            if ok_all:
-                taken.append(sp)
-        if len(taken) != 1 or taken[0].end != 'return':
-            bad.append((d, 'no unique returning path'))
+        if (ls % 2 == 0) != bool(il):
+            bad.append((ls, ch, n, 'parity'))
             continue
-        got = _eval_int(ctx, taken[0].value, {'distance': d}, rd.module)
+        text = f'{ch}{sep}{n}'
+        ok_, got = F.eval_function(ctx, rd, {rd.params[0]: text})
+        if not ok_:
+            raise AnalysisError(f'{rd.loc}: gkern_to_g_clef_pitch cannot be interpreted on {text!r}')
+        d = ls + 2          # steps above middle C: the bottom line (position 0) is e
         octave = 4 + d // 7
         letter = letters[d % 7]
         want = letter * (octave - 4 + 1) if octave >= 4 else letter.upper() * (3 - octave + 1)
         if got != want:
-            bad.append((d, got, want))
-    ctx.check(not bad, 'R3', rd.loc, rd.qualname, 'steps-to-kern-letters',
-              f'distance d from middle C -> LETTERS[d % 7] repeated as HumdrumPitchExporter does for octave 4 + d // 7 '
-              f'({len(RANGE)} distances enumerated); bottom line (position 0, distance 2) -> {letters[2]!r}',
-              f'letter/octave repetition disagrees with the Humdrum pitch exporter, e.g. (distance, got, expected) = {bad[:3]}')
+            bad.append((ls, text, got, want))
+    ctx.check(not bad, 'R3', rd.loc, rd.qualname, 'codec-inverse',
+              f'reader(writer(line_space)) is the kern spelling of line_space + 2 steps above middle C for both parities and signs '
+              f'({len(RANGE)} positions interpreted): lines and spaces alternate without gap or overlap, letters repeat as '
+              f'HumdrumPitchExporter does for octave 4 + d // 7, bottom line -> {letters[2]!r}',
+              f'reader and writer of the T@n/S@n codec disagree, e.g. (line_space, text, got, expected) = {bad[:3]}')
+    ctx.check(len(letters) == seven, 'R1', rd.loc, rd.qualname, 'seven-everywhere',
+              f'len(LETTERS) = {seven}: the modulus of the reader equals the octave factor of compute_position',
+              f'len(LETTERS) = {len(letters)}, octave factor {seven}')
     # identity under G2
     gb = ctx.prog.func(f'{GK}.GClef.bottom_line')
     r = symex.returns(gb)
@@ -490,16 +454,29 @@ def r6_clef_in_force(ctx, rule='R6'):
         ctx.check(key is not None and [key] == built, rule, f'{et.module.relpath}:{gcall.lineno}', et.qualname, 'clef-key-agreement',
                   f'export_token looks the clef up under {key!r}, the class name the listener builds for clefs',
                   f'export_token looks the clef up under {key!r} but the listener builds {built}: the clef in force is never found')
-    env = G.single_assignments(et.node)
-    calls = [c for c in walk_local(et.node) if isinstance(c, ast.Call) and isinstance(c.func, ast.Attribute) and c.func.attr == 'create'
-             and src(c.func.value) == 'TokenizerFactory']
-    ok = False
-    if len(calls) == 1:
+    # on every path: the factory receives the token of the clef node, or None when the context has no clef
+    GET = f"{nd}.last_signature_nodes.nodes.get('ClefToken')"
+    ok = True
+    n_paths = 0
+    for cond, val, sp in symex.returns(et):
+        calls = [c for c in ast.walk(val) if isinstance(c, ast.Call) and isinstance(c.func, ast.Attribute) and c.func.attr == 'create'
+                 and src(c.func.value) == 'TokenizerFactory']
+        if len(calls) != 1:
+            ok = False
+            continue
+        n_paths += 1
         kw = {k.arg: k.value for k in calls[0].keywords}
         lc = kw.get('last_clef_reference')
-        # last_clef is assigned in both branches of `if last_clef_node is not None`
-        assigns = [src(n.value) for n in walk_local(et.node) if isinstance(n, ast.Assign) and F.is_name(n.targets[0], src(lc))] if lc is not None else []
-        ok = lc is not None and sorted(assigns) == sorted(['last_clef_node.token', 'None'])
+        if lc is None:
+            ok = False
+        elif F.forced(cond, f'{GET} is None', True) or F.forced(cond, GET, False):
+            ok = ok and isinstance(lc, ast.Constant) and lc.value is None
+        elif F.forced(cond, f'{GET} is None', False) or F.forced(cond, GET, True):
+            ok = ok and src(lc) == f'{GET}.token'
+        else:
+            ok = ok and src(lc) in (f'{GET}.token if {GET} is not None else None', f'None if {GET} is None else {GET}.token',
+                                    f'{GET}.token if {GET} else None')
+    ok = ok and n_paths > 0
     ctx.check(ok, rule, et.loc, et.qualname, 'clef-forwarded',
               'the token of the clef node (or None when no clef was seen) is forwarded to the tokenizer factory')
     run_ = ctx.prog.func(f'{N.IMPORTER}.Importer.run')
